@@ -578,6 +578,22 @@ def rule_ef(ck, R, eng, ps):
                 bad = bad or 'empty area gets first/last/count = %s/%s/%s' % (fmt(first), fmt(last), fmt(count))
             if sym.mem_read(p.mem, ke, he) != he:
                 bad = bad or 'entry index moves on an empty area'
+    # ... and EVERY area gets its record: the link loop is left only once the area index has reached the area count.  A loop
+    # that also ends when the registers run out leaves the areas behind the last register as they were - right for a
+    # table initialised for the first time (static zeroes), stale after a re-initialisation with fewer registers.
+    if link and bad is None:
+        node = link[0].loops[-1][0]
+        idxh = [h for k, h, pre in loop_counter(ps, link[0])]
+        for q in ps:
+            if q.end == 'loopback' or not idxh:
+                continue
+            if not any(n_ is node for n_, _ in q.loops):
+                continue
+            if not eng.entails(eng.path_facts([sym.substitute(c_, origin) for c_ in q.cond_terms()]), L(('f', T, 'areas')) - L(idxh[0])):
+                ex = [fmt(c) for c in q.cond_terms() if sym.contains(c, idxh[0])]
+                bad = ('the link loop can be left before the area index has reached t->areas (exit under {%s}): the areas behind get no record in this initialisation - '
+                       'after a re-initialisation with fewer registers they keep first / last / count of the previous one' % '; '.join(ex[-3:]))
+                break
     if link is not None:
       ck.verdict(bad is None, 'C04.e', 'link', where,
                'each area records first = running index, last = next-1, count = next-first where next is the first later entry outside the area; empty areas 0/0/0' if bad is None else bad)
